@@ -91,6 +91,10 @@ print("done");
         "forloop": "for a in P { try { for x in a { var y = x; } } catch e {} }",
         "display": "for a in P { try { var s = String.from(a); var t = \"${a}\"; } catch e {} }",
         "hashkey": "for a in P { try { var m = {a: 1}; m.get(a); m.insert(a, a); var z = m.keys(); } catch e {} }",
+        "hashkey-retry": "var M = {}; for a in P { for rep in [0, 1, 2] { try { var m = {a: 1}; } catch e {} try { M.insert(a, a); } catch e {} try { M.get(a); } catch e {} "
+                         "try { M.has_key(a); M.remove(a); } catch e {} try { M.insert([a, M], 1); } catch e {} try { M.insert((a, [a]), 1); } catch e {} } try { var s = String.from(a); } catch e {} }",
+        "tuple-key-retry": "for a in P { for b in P { var t = (a, (b, [a])); var u = (a, b); for rep in [0, 1, 2] { try { var m = {t: 1}; } catch e {} try { var m = {u: 1}; m.get(u); m.get(t); } catch e {} } "
+                           "try { var s = String.from(t) + String.from(u); var z = t == u; } catch e {} } }",
         "throw": "for a in P { try { throw a; } catch e { var z = e; } }",
         "type": "for a in P { try { var t = type(a); var d = a.derives(t); var d2 = a.derives(a); } catch e {} }",
         "equality": "var Q = []; for a in P { if type(a) != Vec { Q.push(a); } } for a in Q { for b in Q { var z = a == b; } }",
